@@ -304,6 +304,7 @@ func c16Run(c *Ctx, pfx string, decoders []string, full bool) {
 		c16Panics(c)
 		c16RecvLoops(c, pfx)
 		c16AllocRules(c, pfx)
+		c16ValueLogID(c, pfx)
 	}
 	c16VersionGate(c, pfx)
 	c.count("decoder_roots", ndec)
@@ -664,6 +665,63 @@ func init() {
 			fmt.Printf("CONV %s#%d %s bounded=%v %s\n", fnName(f), ord, c.pos(cv.Pos()), bounded, how)
 		})
 	}})
+}
+
+// c16ValueLogID: value offsets are read from the tx log and are not covered by any hash; the value-log id in their top
+// byte selects an entry of the map ImmuStore.vLogs, whose elements are pointers: a lookup with an id that is not in the
+// map yields nil and the field access that follows panics. Every such lookup in fetchVLog is preceded by the comma-ok form.
+func c16ValueLogID(c *Ctx, pfx string) {
+	r := pfx + "/decoded-map-key-checked"
+	f := c.mustFn(r, storeT+"fetchVLog")
+	if f == nil {
+		return
+	}
+	n := 0
+	var oks []*ssa.Lookup
+	allInstrs(f, false, func(in ssa.Instruction) {
+		if lk, ok := in.(*ssa.Lookup); ok && lk.CommaOk && hasFieldSuffix(desc(lk.X), "vLogs") {
+			oks = append(oks, lk)
+		}
+	})
+	allInstrs(f, false, func(in ssa.Instruction) {
+		lk, ok := in.(*ssa.Lookup)
+		if !ok || lk.CommaOk || !hasFieldSuffix(desc(lk.X), "vLogs") {
+			return
+		}
+		if _, isConst := lk.Index.(*ssa.Const); isConst {
+			return
+		}
+		n++
+		guarded := false
+		for _, g := range oks {
+			if desc(g.Index) != desc(lk.Index) {
+				continue
+			}
+			// the ok == true edge dominates the lookup
+			for _, ref := range *g.Referrers() {
+				ex, isEx := ref.(*ssa.Extract)
+				if !isEx || ex.Index != 1 {
+					continue
+				}
+				for _, r2 := range *ex.Referrers() {
+					if ifi, isIf := r2.(*ssa.If); isIf && edgeDominates(ifi.Block(), 0, lk.Block()) {
+						guarded = true
+					}
+					if u, isNot := r2.(*ssa.UnOp); isNot && u.Op == token.NOT {
+						for _, r3 := range *u.Referrers() {
+							if ifi, isIf := r3.(*ssa.If); isIf && edgeDominates(ifi.Block(), 1, lk.Block()) {
+								guarded = true
+							}
+						}
+					}
+				}
+			}
+		}
+		c.check(guarded, r, fmt.Sprintf("%s:vLogs[%s]#%d", fnName(f), desc(lk.Index), n), c.pos(lk.Pos()), "dominated by the ok edge of a comma-ok lookup with the same key", "s.vLogs["+desc(lk.Index)+"] is dereferenced without a check that the value log exists: a damaged value offset makes the reader panic")
+	})
+	if n == 0 {
+		c.undecided(r, fnName(f)+":lookups", "no lookup of the value-log map with a decoded id found")
+	}
 }
 
 // exemptions of the allocation / sign rules: one named function each, with the reason
